@@ -118,12 +118,13 @@ func uniqCases() []string {
 }
 
 // keyedCases: case splits for H_C06_History with a release delay: all histories of 3 operations
+// over the alphabet, from initial key set n (0 empty, 1 {1}, 2 {1,2})
 func keyedCases(n int, alphabet []int) []string {
 	var out []string
 	for _, a := range alphabet {
 		for _, b := range alphabet {
 			for _, c := range alphabet {
-				out = append(out, fmt.Sprintf("delay=1,op0=%d,op1=%d,op2=%d", a, b, c))
+				out = append(out, fmt.Sprintf("delay=1,init=%d,op0=%d,op1=%d,op2=%d", n, a, b, c))
 			}
 		}
 	}
@@ -237,6 +238,9 @@ func init() {
 		Quick: []Job{
 			{H: "H_C04_Restart2", K: 36, U: 3, Prune: true, Preempt: 2, Only: "routine-overlap|wait-return|setstate-channel|panic/", TimeoutSec: 900},
 			{H: "H_C04_SetContext2", K: 36, U: 3, Prune: true, Preempt: 2, Only: "routine-overlap|wait-return|setstate-channel|panic/", TimeoutSec: 900},
+			{H: "H_C04_ClearSetRoutine", K: 36, U: 3, Prune: true, Preempt: 2, Only: "routine-overlap|wait-return|setstate-channel|panic/", TimeoutSec: 900},
+			{H: "H_C04_NilRoutine", K: 36, U: 3, Prune: true, Preempt: 2, Only: "routine-overlap|wait-return|setstate-channel|panic/", TimeoutSec: 900},
+			{H: "H_C04_StateEmpty", K: 36, U: 3, Prune: true, Preempt: 2, Only: "routine-overlap|wait-return|setstate-channel|panic/", TimeoutSec: 900},
 		},
 		Thorough: []Job{
 			{H: "H_C04_State2", K: 44, U: 3, Prune: true, Preempt: 2, Only: "routine-overlap|wait-return|setstate-channel|panic/", TimeoutSec: 6000, QueryMs: 5000000},
@@ -244,7 +248,7 @@ func init() {
 			{H: "H_C04_SetRoutine2", K: 44, U: 3, Prune: true, Preempt: 2, Only: "routine-overlap|wait-return|setstate-channel|panic/", TimeoutSec: 3000, QueryMs: 2400000},
 			{H: "H_C04_Retry", K: 44, U: 3, Prune: true, Preempt: 2, Only: "routine-overlap|panic/", TimeoutSec: 3000},
 		},
-		Bounds:  "one driver; scripts of 2-3 supersessions issued inside one exit latency of the running instance (Restart;Restart / Restart;SetRoutine;Restart / SetContext(B);Restart / SetState;SetState;Restart), followed by ClearContext; instances run until cancelled and return whenever scheduled; <= 4 instances; K=36-44, U=3; quick tier: schedules with at most 2 preemptions (context bound), thorough: 3 / unbounded",
+		Bounds:  "one driver; scripts of 2-3 supersessions issued inside one exit latency of the running instance (Restart;Restart / SetContext(B);Restart / ClearContext;SetRoutine;SetContext / SetRoutine(nil);SetRoutine / SetState(1);SetState(empty);SetState(2); thorough also Restart;SetRoutine;Restart / SetState;SetState;Restart / retry), followed by ClearContext; instances run until cancelled and return whenever scheduled; <= 4 instances; K=36-44, U=3; quick tier: schedules with at most 2 preemptions (context bound), thorough: 3 / unbounded",
 		Outside: "more than 3 supersessions, several drivers (see C05)",
 	}
 
@@ -275,13 +279,13 @@ func init() {
 				{H: "H_C06_History", K: 30, U: 4, Fixes: []string{"delay=0"}, TimeoutSec: 900},
 				{H: "H_C06_RefCount", K: 6, U: 8, AppendCap: 6},
 			},
-			split(Job{H: "H_C06_History", K: 44, U: 4, Fixes: keyedCases(3, []int{0, 2, 4, 5, 7}), TimeoutSec: 1800}, 13),
+			split(Job{H: "H_C06_History", K: 44, U: 4, Fixes: keyedCases(1, []int{0, 2, 4, 5, 7}), TimeoutSec: 1800}, 13),
 		),
 		Thorough: cat(
-			split(Job{H: "H_C06_History", K: 50, U: 4, Fixes: keyedCases(3, all8), TimeoutSec: 6000}, 14),
+			split(Job{H: "H_C06_History", K: 50, U: 4, Fixes: append(keyedCases(0, all8), append(keyedCases(1, all8), keyedCases(2, all8)...)...), TimeoutSec: 9000}, 14),
 			[]Job{{H: "H_C06_SyncKeepsKey", K: 48, U: 3, Prune: true, TimeoutSec: 3000, Weight: 3}},
 		),
-		Bounds:  "keys {1,2}; symbolic histories of 3 operations out of {SetKey(k), RemoveKey(k), SyncKeys(any subset, with a duplicate)} without release delay (fully symbolic) and, with a release delay, the 125 histories of 3 operations over {SetKey(1), RemoveKey(1), SyncKeys({}), SyncKeys({1}), SyncKeys({1,2,2})} (thorough: all 512 over both keys; case split) followed by the expiry of the delay; KeyedRefCount: 2 references then 3 symbolic operations out of {release A, release B, RemoveKey, AddKeyRef}; container without context in the history harnesses, with context in H_C06_SyncKeepsKey",
+		Bounds:  "keys {1,2}; symbolic histories of 3 operations out of {SetKey(k), RemoveKey(k), SyncKeys(any subset, with a duplicate)} without release delay (fully symbolic) and, with a release delay, starting from key set {1}, the 125 histories of 3 operations over {SetKey(1), RemoveKey(1), SyncKeys({}), SyncKeys({1}), SyncKeys({1,2,2})} (thorough: all 512 over both keys from each of the initial sets {}, {1}, {1,2}; case split) followed by the expiry of the delay; KeyedRefCount: 2 references then 3 symbolic operations out of {release A, release B, RemoveKey, AddKeyRef}; container without context in the history harnesses, with context in H_C06_SyncKeepsKey",
 		Outside: "more than 2 keys, durations, map iteration orders other than slot order",
 	}
 
